@@ -14,7 +14,7 @@ def run(ck):
     d = vlib.run_driver(drv, [ck.tier, ck.seed, t])
     if d["rc"] != 0:
         raise vlib.InfraError("driver failed rc=%s %s" % (d["rc"], d["err"][-1500:]))
-    ck.trace("compact-calls", "Trace_Compact", "Trace.cfg", t, nchunks=48, balance=True, timeout=3400,
+    ck.trace("compact-calls", "Trace_Compact", "Trace.cfg", t, nchunks=16, balance=True, timeout=3400,
              what="disks, whole sub-trees (1-3 levels), sub-trees minus leaves, partial sibling groups, pentagon families at "
                   "depth 1-3(4), unions, pentagon disks, isolated cells, multi-round sets, globe pieces, large sets; each in 3 "
                   "orders; uncompactCells with capacity n, n-1, n+3, 0, random and coarser resolution; uncompactCellsSize")
